@@ -386,6 +386,7 @@ pub fn c04_faulted(ctx: &Ctx, out: &mut RunOut) -> Result<(), Violation> {
                 "digit-edit" => "fault-digit-edit",
                 "ref-retarget" => "fault-ref-retarget",
                 "replicated-block" => "fault-replicated-block",
+                "number-copy" => "fault-number-copy",
                 _ => "fault-none",
             });
             kinds.push(k);
